@@ -114,7 +114,7 @@ def timing_program(draw, max_routines=6, sends=False, nondyadic=False,
             body.append(['play', k, draw(st.sampled_from(refs)), quant()]
                         + spelling())
         if draw(st.integers(0, 9)) == 0:
-            body.append(['yield', 'hang'])
+            body.append(['yield', draw(st.sampled_from(['hang', 'inf']))])
             tag[0] += 1
             body.append(['log', tag[0]])    # never reached
         bodies[nm] = body
